@@ -167,6 +167,35 @@ def _nw(text):
     return "\n".join(out)
 
 
+def run_main(opt, pwd, ip, undo, word, asn, text):
+    """The same feature subset through the command line (None if the options cannot be written there)."""
+    import os
+    import shutil
+
+    from netconan.netconan import main
+
+    if "B6" in opt or opt["B"] is None or not (pwd or ip or word or asn):
+        return None
+    root = seams.scratch_dir("c15m")
+    try:
+        seams.write_tree(os.path.join(root, "in"), {"t.cfg": text})
+        argv = ["-i", os.path.join(root, "in", "t.cfg"), "-o", os.path.join(root, "out.cfg"), "-s", opt["salt"],
+                "--preserve-host-bits", str(opt["B"])]
+        argv += ["-p"] if pwd else []
+        argv += (["-u"] if undo else ["-a"]) if ip else []
+        argv += ["-w", ",".join(_words(opt))] if word else []
+        argv += ["-n", ",".join(_asns(opt))] if asn else []
+        argv += ["-r", ",".join(opt["reserved"])] if opt["reserved"] else []
+        argv += ["--preserve-prefixes", ",".join(opt["prefixes"])] if opt["prefixes"] is not None else []
+        argv += ["--preserve-addresses", ",".join(opt["networks"])] if opt["networks"] else []
+        with seams.capture_logs(), seams.capture_stdio():
+            main(argv)
+        with open(os.path.join(root, "out.cfg"), newline="") as f:
+            return f.read()
+    finally:
+        shutil.rmtree(root, ignore_errors=True)
+
+
 def run(an, text):
     out = io.StringIO()
     with seams.capture_logs():
@@ -259,6 +288,20 @@ class ComposePart(Part):
                 res.violation("exception:" + type(e).__name__, "F=%r opt=%r: %r" % (case["F"], opt, e),
                               {"F": case["F"], "opt": opt})
                 continue
+            # the same subset through the command line
+            if opt["salt"] and opts.index(opt) % 3 == 0 or "opt" in case:
+                try:
+                    mm = run_main(opt, pwd, ip, undo, word, asn, text)
+                finally:
+                    seams.restore_globals()
+                if mm is not None and mm != multi:
+                    a, b = mm.split("\n"), multi.split("\n")
+                    i = [k for k in range(min(len(a), len(b))) if a[k] != b[k]][:1]
+                    feats = "+".join(n for n, on in zip(("pwd", "ip", "undo", "word", "as"), case["F"]) if on)
+                    res.violation("command-line-differs-from-library|" + feats,
+                                  "features %s options %r: main gives %r, FileAnonymizer %r" % (
+                                      feats, opt, a[i[0]] if i else mm[:60], b[i[0]] if i else multi[:60]),
+                                  {"F": case["F"], "opt": opt})
             ml, cl = multi.split("\n"), chain.split("\n")
             res.evals += 1
             if sum(stages) >= 2:
